@@ -430,7 +430,7 @@ func RunC07(c *lib.Ctx) {
 			c.Sample(pt)
 		}
 	})
-	c.Extra("exhaustive", "enumerated part: every store write of W x {before, after}")
+	c.Extra("enumerated_part_covers_every_store_write_of_W", true)
 }
 
 func dumpLines(out string) map[string]string {
